@@ -53,26 +53,42 @@ impl TestRunnerAdapter {
         let thread_breakpoints = breakpoints.clone();
         let thread_sender = event_sender.clone();
         let thread_test_case_path = test_case_path.clone();
+        #[cfg(mos_verif)]
+        crate::verif_hooks::pre_spawn();
         thread::spawn(move || {
+            #[cfg(mos_verif)]
+            crate::verif_hooks::thread_start("machine");
             let mut last_checked_pc = None;
             while thread_is_connected.load(Ordering::Relaxed) {
+                #[cfg(mos_verif)]
+                crate::verif_hooks::point_mutex("m:state.lock", &thread_state);
                 let state = *thread_state.lock().unwrap();
                 match state {
                     MachineRunningState::Launching | MachineRunningState::Stopped(_) => {
+                        #[cfg(mos_verif)]
+                        if crate::verif_hooks::yield_point("m:idle") {
+                            continue;
+                        }
                         thread::sleep(Duration::from_millis(50));
                     }
                     MachineRunningState::Running => {
                         {
+                            #[cfg(mos_verif)]
+                            crate::verif_hooks::point_read("m:runner.read", &thread_runner);
                             let runner = thread_runner.read().unwrap();
                             let pc =
                                 ProgramCounter::new(runner.cpu().get_program_counter() as usize);
                             if last_checked_pc != Some(pc) && !no_debug {
                                 last_checked_pc = Some(pc);
+                                #[cfg(mos_verif)]
+                                crate::verif_hooks::point_mutex("m:bps.lock", &thread_breakpoints);
                                 let bps = thread_breakpoints.lock().unwrap();
                                 if bps
                                     .iter()
                                     .any(|bp| bp.range.start <= pc && bp.range.end > pc)
                                 {
+                                    #[cfg(mos_verif)]
+                                    crate::verif_hooks::point_mutex("m:state.lock2", &thread_state);
                                     let mut state = thread_state.lock().unwrap();
                                     let old = *state;
                                     let new = MachineRunningState::Stopped(pc);
@@ -86,7 +102,11 @@ impl TestRunnerAdapter {
                         }
 
                         {
+                            #[cfg(mos_verif)]
+                            crate::verif_hooks::point_write("m:runner.write", &thread_runner);
                             let mut runner = thread_runner.write().unwrap();
+                            #[cfg(mos_verif)]
+                            crate::verif_hooks::executed(runner.cpu().get_program_counter());
                             match runner.execute_instruction() {
                                 Ok(result) => {
                                     // Give rest of core a chance to do something
@@ -142,6 +162,8 @@ impl TestRunnerAdapter {
                     }
                 }
             }
+            #[cfg(mos_verif)]
+            crate::verif_hooks::thread_end();
         });
 
         let ctx = runner.read().unwrap().codegen();
@@ -171,7 +193,15 @@ impl TestRunnerAdapter {
         )?))
     }
 
+    /// Verification hook: the emulated machine, to compare what the debugger reports with where the CPU really is
+    #[cfg(mos_verif)]
+    pub fn verif_runner(&self) -> Arc<RwLock<TestRunner>> {
+        self.runner.clone()
+    }
+
     fn update_state(&mut self, new: MachineRunningState) -> MosResult<()> {
+        #[cfg(mos_verif)]
+        crate::verif_hooks::point_mutex("s:update_state", &self.state);
         let mut state = self.state.lock().unwrap();
         let old = *state;
         *state = new;
@@ -205,11 +235,15 @@ impl MachineAdapter for TestRunnerAdapter {
     }
 
     fn start(&mut self) -> MosResult<()> {
+        #[cfg(mos_verif)]
+        crate::verif_hooks::point_mutex("s:start", &self.state);
         *self.state.lock().unwrap() = MachineRunningState::Running;
         Ok(())
     }
 
     fn stop(&mut self) -> MosResult<()> {
+        #[cfg(mos_verif)]
+        crate::verif_hooks::point("s:stop");
         self.is_connected.store(false, Ordering::Relaxed);
         Ok(())
     }
@@ -219,6 +253,8 @@ impl MachineAdapter for TestRunnerAdapter {
     }
 
     fn running_state(&self) -> MosResult<MachineRunningState> {
+        #[cfg(mos_verif)]
+        crate::verif_hooks::point_mutex("s:running_state", &self.state);
         Ok(*self.state.lock().unwrap())
     }
 
@@ -228,6 +264,8 @@ impl MachineAdapter for TestRunnerAdapter {
     }
 
     fn pause(&mut self) -> MosResult<()> {
+        #[cfg(mos_verif)]
+        crate::verif_hooks::point_read("s:pause.read", &self.runner);
         let pc = self.runner.read().unwrap().cpu().get_program_counter();
         self.update_state(MachineRunningState::Stopped(ProgramCounter::new(
             pc as usize,
@@ -237,6 +275,8 @@ impl MachineAdapter for TestRunnerAdapter {
 
     fn next(&mut self) -> MosResult<()> {
         {
+            #[cfg(mos_verif)]
+            crate::verif_hooks::point_write("s:next", &self.runner);
             let mut runner = self.runner.write().unwrap();
             runner.step_over()?;
         }
@@ -246,6 +286,8 @@ impl MachineAdapter for TestRunnerAdapter {
 
     fn step_in(&mut self) -> MosResult<()> {
         {
+            #[cfg(mos_verif)]
+            crate::verif_hooks::point_write("s:step_in", &self.runner);
             let mut runner = self.runner.write().unwrap();
             runner.execute_instruction()?;
         }
@@ -255,6 +297,8 @@ impl MachineAdapter for TestRunnerAdapter {
 
     fn step_out(&mut self) -> MosResult<()> {
         {
+            #[cfg(mos_verif)]
+            crate::verif_hooks::point_write("s:step_out", &self.runner);
             let mut runner = self.runner.write().unwrap();
             runner.step_out()?;
         }
@@ -267,6 +311,8 @@ impl MachineAdapter for TestRunnerAdapter {
         source_path: &str,
         breakpoints: Vec<MachineBreakpoint>,
     ) -> MosResult<Vec<MachineValidatedBreakpoint>> {
+        #[cfg(mos_verif)]
+        crate::verif_hooks::point_mutex("s:set_breakpoints", &self.breakpoints);
         *self.breakpoints.lock().unwrap() = breakpoints.clone();
         Ok(breakpoints
             .into_iter()
@@ -281,6 +327,8 @@ impl MachineAdapter for TestRunnerAdapter {
     }
 
     fn registers(&self) -> MosResult<HashMap<String, i64>> {
+        #[cfg(mos_verif)]
+        crate::verif_hooks::point_read("s:registers", &self.runner);
         let runner = self.runner.read().unwrap();
         let cpu = runner.cpu();
 
@@ -293,6 +341,8 @@ impl MachineAdapter for TestRunnerAdapter {
     }
 
     fn flags(&self) -> MosResult<u8> {
+        #[cfg(mos_verif)]
+        crate::verif_hooks::point_read("s:flags", &self.runner);
         Ok(self.runner.read().unwrap().cpu().get_status_register())
     }
 
